@@ -150,14 +150,14 @@ func selfTest(run *core.Run, id string) {
 	}
 	var results []res
 	var files []string
-	for _, dir := range []string{"seeded", "mutants"} {
+	for _, dir := range []string{"seeded", "mutants", "equivalents"} {
 		m, _ := filepath.Glob(filepath.Join(run.VerifDir, dir, id, "*", "patch.diff"))
 		files = append(files, m...)
 		m, _ = filepath.Glob(filepath.Join(run.VerifDir, dir, id, "*.diff"))
 		files = append(files, m...)
 	}
 	sort.Strings(files)
-	det, undet, stale, regress := 0, 0, 0, 0
+	det, undet, stale, regress, silent, falseAlarms := 0, 0, 0, 0, 0, 0
 	for _, f := range files {
 		cmd := exec.Command(os.Args[0], "check", id, "--tier", "quick", "--patch", f)
 		cmd.Env = append(os.Environ(), "VERIF_NO_EVIDENCE=1")
@@ -185,6 +185,8 @@ func selfTest(run *core.Run, id string) {
 			}
 		} else if strings.Contains(f, string(filepath.Separator)+"mutants"+string(filepath.Separator)) {
 			r.Expected = "detected"
+		} else if strings.Contains(f, string(filepath.Separator)+"equivalents"+string(filepath.Separator)) {
+			r.Expected = "silent"
 		}
 		switch code {
 		case 3:
@@ -204,17 +206,31 @@ func selfTest(run *core.Run, id string) {
 			r.Outcome = "undetected"
 			undet++
 		}
+		if r.Expected == "silent" {
+			// behaviour-preserving variant: the check must stay silent on it
+			switch r.Outcome {
+			case "detected":
+				det--
+				falseAlarms++
+				r.Outcome = "false alarm"
+				fmt.Printf("SELF-TEST FALSE ALARM: the check reports %v on %s, a behaviour-preserving variant of /repo\n", r.Rules, rel)
+			case "undetected":
+				undet--
+				silent++
+				r.Outcome = "silent"
+			}
+		}
 		if r.Expected == "detected" && r.Outcome == "undetected" {
 			regress++
 			fmt.Printf("SELF-TEST REGRESSION: %s was detected when it was collected and is not any more\n", rel)
 		}
 		results = append(results, r)
 	}
-	fmt.Printf("self-test: %d mutants of /repo analysed in memory: %d detected, %d undetected, %d stale (no longer apply), %d regressions\n", len(files), det, undet, stale, regress)
+	fmt.Printf("self-test: %d variants of /repo analysed in memory: %d breaking ones detected, %d undetected, %d stale (no longer apply), %d regressions; %d behaviour-preserving ones silent, %d false alarms\n", len(files), det, undet, stale, regress, silent, falseAlarms)
 	run.Analysed("self-test mutants", len(files))
 	run.Analysed("self-test mutants detected", det)
-	run.Extra("self_test", map[string]any{"mutants": len(files), "detected": det, "undetected": undet, "stale": stale, "regressions": regress, "results": results,
-		"meaning": "each mutant is a source change that breaks the property while compiling and passing the test-suite (seeded changes kept under /verif/seeded, hand-written ones under /verif/mutants); it is applied to /repo's current files in memory (go/packages overlay, template overlay) and the quick rules are re-run on it in a sub-process; undetected mutants with expectation 'undetected' are documented misses or changes neutralised by a later repair"})
+	run.Extra("self_test", map[string]any{"mutants": len(files), "detected": det, "undetected": undet, "stale": stale, "regressions": regress, "equivalents_silent": silent, "false_alarms": falseAlarms, "results": results,
+		"meaning": "each mutant is a source change that breaks the property while compiling and passing the test-suite (seeded changes kept under /verif/seeded, hand-written ones under /verif/mutants); it is applied to /repo's current files in memory (go/packages overlay, template overlay) and the quick rules are re-run on it in a sub-process; undetected mutants with expectation 'undetected' are documented misses or changes neutralised by a later repair; variants under /verif/equivalents are behaviour-preserving edits (local renames) on which the check must stay silent"})
 }
 
 func envOr(k, d string) string {
